@@ -87,39 +87,110 @@ def run_cache(report, n, rng):
     report.sample(meta[0])
 
 
+# minimised past failures: they run first on every check
+CORPUS = [
+    # F11 (fixed d5dd814): inside an opacity group a reused shape sits one level deeper; COLRv0 layers must keep paint order
+    ("F11", ["glyf_colr_0", "cff_colr_0", "glyf_colr_1"], 0.1,
+     '<svg xmlns="http://www.w3.org/2000/svg" viewBox="0 0 100 100"><g opacity="0.5">'
+     '<path d="M10,10 L50,10 L50,50 L10,50 Z" fill="red"/><path d="M30,30 L70,30 L70,70 L30,70 Z" fill="green"/>'
+     '<path d="M50,50 L90,50 L70,90 Z" fill="blue"/></g></svg>'),
+]
+
+
+SVG_HEAD = '<svg xmlns="http://www.w3.org/2000/svg" viewBox="0 0 128 128">'
+CORPUS_SETS = [
+    # a reuse transform that reflects/scales one axis and translates along the other (scale-around-centre candidates)
+    ("axis-scale-plus-shift", ["glyf_colr_1", "glyf_colr_0", "picosvg"], 0.1, [
+        SVG_HEAD + '<path d="M20,60 L40,20 L60,60 L45,60 L45,100 L35,100 L35,60 Z" fill="#2e7d32"/>'
+        '<path d="M70,60 L90,100 L110,60 L95,60 L95,20 L85,20 L85,60 Z" fill="#c62828"/>'
+        '<path d="M70,104 L100,104 L100,124 L80,124 L80,114 L70,114 Z" fill="#6a1b9a"/></svg>',
+        SVG_HEAD + '<path d="M20,44 L65,44 L65,64 L35,64 L35,54 L20,54 Z" fill="#1565c0"/>'
+        '<path d="M100,20 L100,50 L80,50 L80,30 L70,30 L70,20 Z" fill="#ff8f00"/></svg>',
+    ]),
+    # reused shapes that carry gradients with their own (non-uniform) gradientTransform, moved and scaled
+    ("gradient-on-reused-shape", ["glyf_colr_1", "picosvg"], 0.1, [
+        SVG_HEAD + '<defs><radialGradient id="a" gradientUnits="userSpaceOnUse" cx="40" cy="70" r="14" gradientTransform="matrix(1 0 0 0.5 0 35)">'
+        '<stop offset="0" stop-color="#ff0000"/><stop offset="1" stop-color="#ffcc00"/></radialGradient>'
+        '<radialGradient id="b" gradientUnits="userSpaceOnUse" cx="90" cy="70" r="14" gradientTransform="matrix(1 0 0 0.5 0 35)">'
+        '<stop offset="0" stop-color="#ff0000"/><stop offset="1" stop-color="#ffcc00"/></radialGradient>'
+        '<linearGradient id="c" gradientUnits="userSpaceOnUse" x1="20" y1="10" x2="60" y2="30" gradientTransform="matrix(1 0.3 0 1 0 -6)">'
+        '<stop offset="0" stop-color="#0000ff"/><stop offset="1" stop-color="#00ff00"/></linearGradient></defs>'
+        '<path d="M54,70 C54,77.7 47.7,84 40,84 C32.3,84 26,77.7 26,70 C26,62.3 32.3,56 40,56 C47.7,56 54,62.3 54,70 Z" fill="url(#a)"/>'
+        '<path d="M104,70 C104,77.7 97.7,84 90,84 C82.3,84 76,77.7 76,70 C76,62.3 82.3,56 90,56 C97.7,56 104,62.3 104,70 Z" fill="url(#b)"/>'
+        '<path d="M20,10 L60,10 L60,30 L20,30 Z" fill="url(#c)"/></svg>',
+        SVG_HEAD + '<defs><radialGradient id="a" gradientUnits="userSpaceOnUse" cx="64" cy="64" r="28" gradientTransform="matrix(0.5 0 0 1 32 0)">'
+        '<stop offset="0" stop-color="#ffffff"/><stop offset="1" stop-color="#123456"/></radialGradient></defs>'
+        '<path d="M92,64 C92,79.4 79.4,92 64,92 C48.6,92 36,79.4 36,64 C36,48.6 48.6,36 64,36 C79.4,36 92,48.6 92,64 Z" fill="url(#a)"/></svg>',
+    ]),
+]
+
+
+def glyph_picture(font, g):
+    """the picture a colour glyph paints, from COLR or from its OT-SVG document"""
+    if "COLR" in font:
+        return picture.colr_picture(font, g)
+    from harness.c02 import svg_docs
+
+    gid = font.getGlyphID(g)
+    covering = [d for d in svg_docs(font) if d[1] <= gid <= d[2]]
+    if len(covering) != 1:
+        return [], [f"{len(covering)} SVG documents cover glyph {g}"]
+    return picture.otsvg_picture(covering[0][0], gid)
+
+
+def check_pair(report, tag, fmt, tol, over, srcs):
+    """-> False if a failure was reported"""
+    case = dict(kind="e2e-pair", format=fmt, reuse_tolerance=tol, config={k: str(v) for k, v in over.items()}, sources=[s[1] for s in srcs])
+    try:
+        on_font, cfg, picos, _ = build.build_inprocess(over, srcs)
+        off_font, cfg_off, _, _ = build.build_inprocess(dict(over, reuse_tolerance=-1.0), srcs)
+    except Exception as ex:
+        case["error"] = f"{type(ex).__name__}: {ex}"
+        report_failure(report, f"pair_build_{tag}", case)
+        return False
+    report.hist("pairs.format", fmt)
+    report.hist("pairs.tolerance", tol)
+    reused = 0
+    for (fn, text, cps), pico in zip(srcs, picos):
+        g_on, g_off = e2e.glyph_for(on_font, cps), e2e.glyph_for(off_font, cps)
+        p_on, pr1 = glyph_picture(on_font, g_on)
+        p_off, pr2 = glyph_picture(off_font, g_off)
+        vb = e2e.viewbox_of_pico(pico)
+        base, extra = e2e.eps_for(cfg, vb)
+        su = max(1.0, picture.anorm(e2e.user_affine(cfg)))
+        probs = pr1 + pr2 + picture.compare_pictures(p_off, p_on, eps=2 * base * su, extra_eps=extra * su, palette_check="COLR" in on_font)
+        reused += sum(1 for it, _ in picture.flatten(p_on) if len(it) > 4 and abs(it[4] - 1.0) > 1e-9)
+        report.count(("pair", fmt, tol, text), True)
+        if probs:
+            case.update(source=fn, problems=probs[:4])
+            report_failure(report, f"pair_{tag}", case)
+            return False
+    report.hist("pairs.layers_under_a_reuse_transform", min(reused, 6))
+    return True
+
+
 def run_pairs(report, n, rng):
-    formats = ["glyf_colr_1", "glyf_colr_0", "glyf_colr_1", "cff_colr_1"]
+    for name, fmts, tol, text in CORPUS:
+        for fmt in fmts:
+            report.hist("pairs.kind", "corpus " + name)
+            if not check_pair(report, f"{name}_{fmt}", fmt, tol, dict(color_format=fmt, reuse_tolerance=tol), [(build.filename_for((0x1F600,)), text, (0x1F600,))]):
+                return
+    for name, fmts, tol, texts in CORPUS_SETS:
+        for fmt in fmts:
+            report.hist("pairs.kind", "corpus " + name)
+            srcs = [(build.filename_for((0x1F600 + k,)), t, (0x1F600 + k,)) for k, t in enumerate(texts)]
+            # 8 font units per source unit: reuse transforms are integral, so the specialised paints are emitted
+            for metrics in (dict(upem=1024, ascender=896, descender=-128, width=1024), dict()):
+                if not check_pair(report, f"{name}_{fmt}", fmt, tol, dict(color_format=fmt, reuse_tolerance=tol, **metrics), srcs):
+                    return
+    formats = ["glyf_colr_1", "glyf_colr_0", "glyf_colr_1", "cff_colr_1", "picosvg"]
     for i in range(n):
         fmt = formats[i % len(formats)]
         tol = rng.choice([0.01, 0.1, 0.1, 0.5, 1.0])
         over = e2e.gen_config(rng, fmt, reuse=tol)
         docs, srcs = e2e.gen_sources(rng, n=rng.randint(2, 5), stress=True, var_opaque=fmt.endswith("_0"))
-        case = dict(kind="e2e-pair", format=fmt, reuse_tolerance=tol, config={k: str(v) for k, v in over.items()}, sources=[s[1] for s in srcs])
-        try:
-            on_font, cfg, picos, _ = build.build_inprocess(over, srcs)
-            off_font, cfg_off, _, _ = build.build_inprocess(dict(over, reuse_tolerance=-1.0), srcs)
-        except Exception as ex:
-            case["error"] = f"{type(ex).__name__}: {ex}"
-            report_failure(report, f"pair_build_{i}", case)
+        if not check_pair(report, str(i), fmt, tol, over, srcs):
             return
-        report.hist("pairs.format", fmt)
-        report.hist("pairs.tolerance", tol)
-        reused = 0
-        for (fn, text, cps), pico in zip(srcs, picos):
-            g_on, g_off = e2e.glyph_for(on_font, cps), e2e.glyph_for(off_font, cps)
-            p_on, pr1 = picture.colr_picture(on_font, g_on)
-            p_off, pr2 = picture.colr_picture(off_font, g_off)
-            vb = e2e.viewbox_of_pico(pico)
-            base, extra = e2e.eps_for(cfg, vb)
-            su = max(1.0, picture.anorm(e2e.user_affine(cfg)))
-            probs = pr1 + pr2 + picture.compare_pictures(p_off, p_on, eps=2 * base * su, extra_eps=extra * su)
-            reused += sum(1 for it, _ in picture.flatten(p_on) if len(it) > 4 and abs(it[4] - 1.0) > 1e-9)
-            report.count(("pair", fmt, tol, text), True)
-            if probs:
-                case.update(source=fn, problems=probs[:4])
-                report_failure(report, f"pair_{i}", case)
-                return
-        report.hist("pairs.layers_under_a_reuse_transform", min(reused, 6))
     report.sample(dict(kind="e2e-pair", format=fmt, reuse_tolerance=tol, source=srcs[0][1]))
 
     # known finding: tolerance exactly 0 is non-negative but crashes in picosvg's normalize
